@@ -74,6 +74,16 @@ CHECKS = {
              "are validated against the scalar transition relation of the analysis model (SnapStep).",
         design="6 (C06), 3.5", technique="TLA+ invariants on the analysis model + trace validation of returned models and collector snapshots",
         note=DOC_NOTE),
+    "C08": dict(
+        text="spec/CookScale.tla states, over the recipe model CookAnalysis predicts for a generated document, which outcome and "
+             "multiplier every component must get (Linear exactly for unlocked numeric/range ingredient quantities) and that "
+             "the base of scale_to_servings is the first declared servings value. Valid CookDoc recipes are scaled by a set "
+             "of factors; TLC judges per component the reported outcome and the physical amount before/after (value x unit "
+             "ratio, whatever unit it was fitted to), cookware/timers/inline quantities/names/relations/steps/metadata "
+             "unchanged, default_scale verbatim, scale_to_servings(n) = scale(n / first declared) with the base taken from "
+             "the specification's prediction (spec/Trace_Scale.tla).",
+        design="6 (C08), 3.6", technique="TLA+ predicted recipe model + scaling rules + TLC simulation + replay + trace validation of scaled components",
+        note="Trusted: TLC, the projection; amounts are compared in f64 (1e-9 relative) by the harness because TLC has no reals."),
     "C09": dict(
         text="spec/CookConvert.tla models conversion over a model converter with integer ratios and offsets, so TLC computes "
              "the exact rational result of every quantity x target (every unit, both systems, fit), the best unit chosen by "
